@@ -575,7 +575,9 @@ class RemoteReference(RemoteReferenceOnly):
 
 class RemoteMethodReferenceTracker(RemoteReferenceTracker):
     def getRef(self):
-        if self.ref is None:
+        # as in RemoteReferenceTracker.getRef, self.ref may be a dead weakref
+        # (released, but _handleRefLost has not fired yet)
+        if self.ref is None or self.ref() is None:
             ref = RemoteMethodReference(self)
             self.ref = weakref.ref(ref, self._refLost)
         self.received_count += 1
